@@ -519,6 +519,26 @@ class Summariser:
             e2[tv] = ev
             elt = self._expr(n.elt, e2)
             return Val("family", template=self.elem_key(elt), binders=[b] if b else [])
+        # [f(a, b) for a in A for b in B]  with independent sources: the same family as iterating product(A, B)
+        if len(gens) >= 2 and all(isinstance(g.target, ast.Name) for g in gens) and \
+                not any(isinstance(x, ast.Name) and x.id in {h.target.id for h in gens[:i]} for i, g in enumerate(gens) for x in ast.walk(g.iter)) \
+                and not any(isinstance(g.iter, ast.Call) and dotted(g.iter.func) in ("combinations", "itertools.combinations", "range") for g in gens):
+            binders, e2, ren = [], dict(env), {}
+            for i, g in enumerate(gens):
+                src = self._expr(g.iter, env)
+                b, ev = self._source_binder(src, f"p{i}")
+                if b:
+                    binders.append(b)
+                e2[g.target.id] = ev
+                ren[g.target.id] = self.elem_key(ev) if ev.kind != "elem" else ev.name
+            for g in gens:
+                for cond in g.ifs:
+                    txt = unparse(cond)
+                    for k, v in ren.items():
+                        txt = txt.replace(k, v)
+                    binders.append(f"where {txt}")
+            elt = self._expr(n.elt, e2)
+            return Val("family", template=self.elem_key(elt), binders=binders)
         # [list(p) for i in range(2, value + 1) for p in combinations(self.common_terms, i)]
         if len(gens) == 2 and isinstance(gens[1].iter, ast.Call) and dotted(gens[1].iter.func) in ("combinations", "itertools.combinations"):
             rng_node = gens[0].iter
